@@ -4,7 +4,6 @@ import bisect
 from vlib.engine import Prop, Failure
 
 NUL_KEY = "C19:keyhash:embedded-nul"
-HNULL_KEY = "C19:heap:extract-null-empty"
 INT_MIN, INT_MAX = -2**31, 2**31 - 1
 
 
@@ -91,7 +90,7 @@ class C19(Prop):
     theorems = ["EaselModel.Props.C19." + t for t in (
         "keyhash_refines_partial", "keyhash_never_faults_partial", "keyhash_refines_jenkins_partial", "keyhash_ops_partial", "keyhash_upsize", "jenkins_in_range",
         "keyhash_embedded_nul_counterexample", "spec_store", "spec_lookup", "spec_get",
-        "heap_insert", "heap_extract", "heap_extract_null_partial", "heap_extract_null_counterexample", "heap_sorts", "heap_drain", "heap_validate",
+        "heap_insert", "heap_extract", "heap_extract_null", "heap_extract_null_unguarded_faults", "heap_sorts", "heap_drain", "heap_validate",
         "rb_insert", "rb_history", "rb_wf_iff", "rb_height", "rb_lookup", "rb_sorted_linked", "rb_linked_is_reverse_inorder",
         "stack_push_pop", "stack_pop_empty", "stack_lifo", "stack_popAll_unfold", "stack_discardTopN", "stack_discardSelected",
         "stack_shuffle", "stack_convert2String",
@@ -109,7 +108,7 @@ class C19(Prop):
                   "index quicksort (partition as written) terminates without out-of-bounds access and returns a permutation of 0..n-1 ordering the data for any total preorder, every n>=0. "
                   "The hand-written models are tied to the working tree by an exact differential run over operation histories including internal state dumps; abstract-type monitors in Python give a concrete failing history.")
     level_note = ("Trusted: Lean kernel + propext/Classical.choice/Quot.sound; fidelity of the hand models is checked (not proved) by the differential run. "
-                  "_partial: keys with an embedded NUL stored by length (known finding, counter-example proved), esl_heap_IExtractTop(hp, NULL) on an empty heap (known finding, fix proposed, counter-example proved) are excluded (esl_quicksort n=0 was found by this check and is fixed in the tree; regression case + theorem kept). "
+                  "_partial: keys with an embedded NUL stored by length (known finding, counter-example proved) are excluded (esl_quicksort n=0 and esl_heap_IExtractTop(hp,NULL) on an empty heap were found by this check and are fixed in the tree; regression cases + theorems kept). "
                   "C int overflow (>=2^31 keys/bytes), allocation failure, the pthread mutex/cond paths of esl_stack and hashsize >= 2^28 growth stop are outside the model or untested; red-black keys are integers (doubles without NaN).")
     trusted_base = ["hand models of esl_keyhash.c / esl_heap.c / esl_red_black.c / esl_stack.c / esl_quicksort.c tied by exact differential run "
                     "(h_containers.c, ASan+UBSan build of the working tree), including internal state dumps (heap array, tree shape and colours, stack array, table sizes)",
@@ -131,8 +130,8 @@ class C19(Prop):
              "ops": ["kh_new size=2 kalloc=1 salloc=1", "store key=610062", "store key=610062", "lookup key=610062", "num"]},
             # regression: esl_quicksort(n=0) used to read sorted_at[-1] (fixed by `if (n > 1)`)
             {"name": "quicksort-n0-regression", "sticky": 0, "ops": ["qsort mode=asc data=-", "qsort mode=desc data=7", "qsort mode=coarse data=-"]},
-            # known finding: esl_heap_IExtractTop(hp, NULL) on an empty heap stores through NULL (fix proposed)
-            {"name": "heap-extract-null-empty-witness", "known_key": HNULL_KEY, "sticky": 1, "ops": ["heap_new max=0", "hpop"]},
+            # regression: esl_heap_IExtractTop(hp, NULL) on an empty heap used to store through NULL (fixed)
+            {"name": "heap-extract-null-empty-regression", "sticky": 1, "ops": ["heap_new max=0", "hpop", "hins v=4,2", "hpop", "hpop", "hpop", "heap_new max=1", "hpop"]},
             {"name": "kh-basic", "sticky": 1,
              "ops": ["kh_new size=1 kalloc=1 salloc=1", "store key=61", "store key=62", "store key=61", "lookup key=62", "lookup key=63",
                      "store key=-", "lookup key=-", "store key=63", "store key=64", "get i=0", "get i=3", "getall", "kh_sizes",
@@ -268,10 +267,7 @@ class C19(Prop):
             elif r < 0.55:
                 ops.append("hext"); cnt = max(0, cnt - 1)
             elif r < 0.6:
-                if cnt > 0:          # NULL-pointer extraction only on a non-empty heap (known finding on the empty one)
-                    ops.append("hpop"); cnt -= 1
-                else:
-                    ops.append("hext")
+                ops.append("hpop"); cnt = max(0, cnt - 1)      # extraction with a NULL result pointer (also on an empty heap)
             elif r < 0.7:
                 ops.append("hdump")
             elif r < 0.8:
@@ -570,7 +566,7 @@ class C19(Prop):
                     heap.pop(-1 if hmax else 0)
                     if l != "ok %d" % len(heap): return fail(i, "one element (the best) should have been deleted")
                 elif l != "eod 0":
-                    return Failure("monitor", "op %d hpop on an empty heap -> %r" % (i, l), key=HNULL_KEY)
+                    return fail(i, "empty heap: eslEOD expected")
             elif name == "hdrain":
                 exp = list(reversed(heap)) if hmax else list(heap)
                 heap = []
